@@ -23,10 +23,10 @@ type c20Stream struct {
 	Chunks   []int    `json:"chunks"`
 	Expected []string `json:"expected"`
 	// not sent
-	typed   string
-	mode    string
-	hazard  string
-	perLine int
+	typed    string
+	mode     string
+	hazard   string
+	perLine  int
 	maxLines int
 }
 
@@ -36,12 +36,12 @@ type c20Tok struct {
 }
 
 type c20Out struct {
-	Lines [][]string  `json:"lines"`
-	Err   string      `json:"err"`
-	Panic string      `json:"panic"`
-	Got   [][]c20Tok  `json:"got"`
-	Want  [][]c20Tok  `json:"want"`
-	Reads int         `json:"reads"`
+	Lines [][]string `json:"lines"`
+	Err   string     `json:"err"`
+	Panic string     `json:"panic"`
+	Got   [][]c20Tok `json:"got"`
+	Want  [][]c20Tok `json:"want"`
+	Reads int        `json:"reads"`
 }
 
 func hazardOf(tokens []string) string {
@@ -167,7 +167,7 @@ func genC20Stream(r *core.Rand, g *gen.StmtGen, long bool) c20Stream {
 }
 
 func checkC20(c *core.Ctx) []core.Floor {
-	c.Rule = "lists of 1-8 statements (from the C10 grammar plus literals and quoted identifiers containing semicolons, the other quote kind, spaces, keywords), each terminated by a semicolon, entered with line breaks (Enter = CR, as in raw mode) at random token boundaries - never inside a literal - several statements per line or one statement over many lines; delivered byte by byte, in random small chunks that split UTF-8 sequences, or as full 256-byte reads (a paste is a fast byte stream: the console never enables bracketed paste). The real Terminal.ReadLine (driven in-package through a go test -overlay driver) is called until EOF; the submitted statements, tokenised with the real SQL tokenizer, must equal the typed statements one to one and in order. Distinct = keystroke stream + chunking; non-trivial = a literal contains a semicolon, or a line carries several statements, or a statement spans several lines."
+	c.Rule = "lists of 1-8 statements (from the C10 grammar plus literals and quoted identifiers containing semicolons, the other quote kind, spaces, keywords), each terminated by a semicolon, entered with line breaks (Enter = CR, as in raw mode) at random token boundaries - never inside a literal - several statements per line or one statement over many lines; delivered byte by byte, in random small chunks that split UTF-8 sequences, or as full 256-byte reads (a paste is a fast byte stream: the console never enables bracketed paste). The real Terminal.ReadLine (driven in-package through a go test -overlay driver) is called until EOF; the submitted statements, tokenised with the real SQL tokenizer, must equal the typed statements one to one and in order. In addition 64 (quick) / 1600 (thorough) whole console sessions run end to end: the console's own runTerminal loop on a pseudo-terminal with a real engine.Session behind it, the keystrokes written to the pty master; the statements are INSERTs of (sequence number, literal) into one table, mixed with statements the engine rejects (unknown table, syntax error, type error) on the same and on other lines; afterwards the table must hold exactly the valid INSERTs' rows, once each and in order, literals intact. Distinct = keystroke stream + chunking; non-trivial = a literal contains a semicolon, or a line carries several statements, or a statement spans several lines."
 	c.Assume = []string{"what a line break inside a literal should become is not stated by the property: never generated", "one stream in fifty carries a statement of 4-40 KB"}
 	bin, err := buildOverlayTest(c, "cmd/console", "console_driver_test.go", "zz_verif_driver_test.go")
 	if err != nil {
@@ -216,8 +216,19 @@ func checkC20(c *core.Ctx) []core.Floor {
 			judgeC20(c, st, outs[i])
 		}
 	})
-	return []core.Floor{{Key: "streams", Min: 2000}, {Key: "streams_equal", Min: 500}, {Key: "hazard_semicolon_in_single_quotes", Min: 20}, {Key: "hazard_semicolon_in_double_quotes", Min: 20},
-		{Key: "three_or_more_statements_on_one_line", Min: 20}, {Key: "statement_over_four_or_more_lines", Min: 20}, {Key: "mode_typed_byte_by_byte", Min: 100}, {Key: "mode_random_chunks", Min: 100}, {Key: "mode_pasted_full_reads", Min: 100}, {Key: "streams_with_a_statement_over_4096_characters", Min: 20}}
+	var e2eFloors []core.Floor
+	if f, err := os.OpenFile("/dev/ptmx", os.O_RDWR, 0); err == nil {
+		f.Close()
+		checkC20EndToEnd(c, bin)
+		e2eFloors = []core.Floor{{Key: "e2e_sessions", Min: 40}, {Key: "e2e_sessions_with_a_rejected_statement_before_a_valid_one_on_the_same_line", Min: 10}, {Key: "e2e_rows_compared", Min: 200}}
+	} else {
+		// runTerminal needs a terminal on descriptor 0; without /dev/ptmx only
+		// the ReadLine layer is observed
+		c.Assume = append(c.Assume, "no pseudo-terminal can be opened here ("+err.Error()+"): the end-to-end console sessions were skipped")
+		c.Count("e2e_skipped_no_pty", 1)
+	}
+	return append(e2eFloors, []core.Floor{{Key: "streams", Min: 2000}, {Key: "streams_equal", Min: 500}, {Key: "hazard_semicolon_in_single_quotes", Min: 20}, {Key: "hazard_semicolon_in_double_quotes", Min: 20},
+		{Key: "three_or_more_statements_on_one_line", Min: 20}, {Key: "statement_over_four_or_more_lines", Min: 20}, {Key: "mode_typed_byte_by_byte", Min: 100}, {Key: "mode_random_chunks", Min: 100}, {Key: "mode_pasted_full_reads", Min: 100}, {Key: "streams_with_a_statement_over_4096_characters", Min: 20}}...)
 }
 
 func judgeC20(c *core.Ctx, st c20Stream, o c20Out) {
@@ -286,4 +297,158 @@ func flat(lines [][]string, i int) string {
 		}
 	}
 	return ""
+}
+
+// ---------------------------------------------------------------------------
+// end to end: runTerminal on a pseudo-terminal, effects read back from the
+// database
+
+type c20E2E struct {
+	Hex    string `json:"hex"`
+	Chunks []int  `json:"chunks"`
+	// not sent
+	typed     string
+	want      [][2]string
+	stmts     []string
+	rejBefore bool
+}
+
+type c20E2EOut struct {
+	Rows  [][2]string `json:"rows"`
+	Err   string      `json:"err"`
+	Panic string      `json:"panic"`
+}
+
+func genC20E2E(r *core.Rand) c20E2E {
+	var st c20E2E
+	var typed strings.Builder
+	lits := []string{"a;b", ";", "x ; y", `say "hi"`, "it; is", "SELECT;", "two  spaces", ";;", "end;", "plain", "", "é;ü"}
+	ns := r.Range(3, 14)
+	rejectedOnLine := false
+	sp := func() string { return "   "[:r.Range(1, 3)] }
+	for i := 0; i < ns; i++ {
+		var toks []string
+		valid := true
+		switch x := r.Intn(10); {
+		case x < 6:
+			lit := lits[r.Intn(len(lits))]
+			toks = []string{"INSERT", "INTO", "log", "VALUES", "(", fmt.Sprint(i), ",", "'" + lit + "'", ")", ";"}
+			st.want = append(st.want, [2]string{fmt.Sprintf("i%d", i), "s" + hex.EncodeToString([]byte(lit))})
+		case x == 6:
+			toks, valid = []string{"INSERT", "INTO", "nosuch", "VALUES", "(", fmt.Sprint(i), ",", "'gone; really'", ")", ";"}, false
+		case x == 7:
+			toks, valid = []string{"SELEC", "*", "FROM", "log", ";"}, false
+		case x == 8:
+			toks, valid = []string{"INSERT", "INTO", "log", "VALUES", "(", "'wrong; type'", ",", fmt.Sprint(i), ")", ";"}, false
+		default:
+			toks = []string{"SELECT", "*", "FROM", "log", "WHERE", "s", "=", "'a;b'", ";"}
+		}
+		if !valid {
+			rejectedOnLine = true
+		} else if rejectedOnLine && toks[0] == "INSERT" {
+			st.rejBefore = true
+		}
+		st.stmts = append(st.stmts, strings.Join(toks, " "))
+		for ti, t := range toks {
+			typed.WriteString(t)
+			switch last := ti == len(toks)-1; {
+			case last && i == ns-1:
+				typed.WriteString("\r")
+			case last:
+				if r.Chance(3, 5) {
+					typed.WriteString(sp()) // next statement on the same line
+				} else {
+					typed.WriteString("\r")
+					rejectedOnLine = false
+				}
+			default:
+				if r.Chance(1, 8) {
+					typed.WriteString("\r") // statement goes on on the next line
+				} else {
+					typed.WriteString(sp())
+				}
+			}
+		}
+	}
+	st.typed = typed.String()
+	st.Hex = hex.EncodeToString([]byte(st.typed))
+	switch r.Intn(3) {
+	case 0:
+		st.Chunks = []int{1}
+	case 1:
+		for k := 0; k < 5; k++ {
+			st.Chunks = append(st.Chunks, r.Range(1, 40))
+		}
+	}
+	return st
+}
+
+func checkC20EndToEnd(c *core.Ctx, bin string) {
+	nb := 4
+	if !core.Quick(c) {
+		nb = 100
+	}
+	core.ParallelFor(nb, c.Workers, func(bi int) {
+		r := core.NewRand(core.SubSeed(c.Seed, "C20E2E", bi))
+		var streams []c20E2E
+		for i := 0; i < 16; i++ {
+			streams = append(streams, genC20E2E(r))
+		}
+		dir := c.CaseDir("c20e")
+		defer removeAll(dir)
+		in, outp := filepath.Join(dir, "in.json"), filepath.Join(dir, "out.json")
+		b, _ := json.Marshal(streams)
+		os.WriteFile(in, b, 0644)
+		msg, err := runOverlayTestNamed(bin, dir, in, outp, "TestVerifE2E")
+		ob, rerr := os.ReadFile(outp)
+		if err != nil || rerr != nil {
+			if strings.Contains(msg, "pty: ") {
+				c.Inconclusive("no-pty", "no pseudo-terminal available: "+clip(msg, 300))
+				return
+			}
+			c.Violation("C20:e2e:console-process-died", "the console process died during an end-to-end session: "+clip(msg, 800), map[string]interface{}{"batch": bi})
+			return
+		}
+		var outs []c20E2EOut
+		if err := json.Unmarshal(ob, &outs); err != nil || len(outs) != len(streams) {
+			c.Inconclusive("harness", "bad e2e driver output")
+			return
+		}
+		for i, st := range streams {
+			o := outs[i]
+			c.Count("e2e_sessions", 1)
+			if st.rejBefore {
+				c.Count("e2e_sessions_with_a_rejected_statement_before_a_valid_one_on_the_same_line", 1)
+			}
+			c.Eval("e2e/"+st.Hex+fmt.Sprint(st.Chunks), st.rejBefore)
+			replay := map[string]interface{}{"typed": st.typed, "statements": st.stmts, "chunks": st.Chunks, "table_log_expected": st.want, "table_log_found": o.Rows}
+			switch {
+			case o.Panic != "":
+				c.Violation("C20:e2e:panic", "console session panicked: "+o.Panic, replay)
+				continue
+			case strings.HasPrefix(o.Err, "setup:") || strings.HasPrefix(o.Err, "typing:"):
+				c.Inconclusive("harness", "e2e session could not be set up: "+o.Err)
+				continue
+			case o.Err != "":
+				c.Violation("C20:e2e:session-failed", "console session failed: "+o.Err, replay)
+				continue
+			}
+			c.Count("e2e_rows_compared", int64(len(st.want)))
+			same := len(o.Rows) == len(st.want)
+			for k := 0; same && k < len(st.want); k++ {
+				same = o.Rows[k] == st.want[k]
+			}
+			if same {
+				c.Count("e2e_sessions_equal", 1)
+				continue
+			}
+			sig := "C20:e2e:statements-reaching-the-engine-differ"
+			if len(o.Rows) < len(st.want) {
+				sig += ":missing"
+			} else if len(o.Rows) > len(st.want) {
+				sig += ":extra"
+			}
+			c.Violation(sig, fmt.Sprintf("after typing %d statements into the console the table holds %d rows, the valid INSERTs typed are %d: found %v, expected %v", len(st.stmts), len(o.Rows), len(st.want), o.Rows, st.want), replay)
+		}
+	})
 }
